@@ -139,6 +139,42 @@ func (c07Prop) Generate(seed uint64, idx int, tier string) *Plan {
 
 // expectedEqual checks a delivered record against the value written.
 func expectedEqual(bf *BuiltFile, i int, got reflect.Value) (bool, string) {
+	if got.Type() != bf.Desc.Type {
+		if bf.Spec.Writer != "ref" {
+			return projectedEqual(bf.Values[i], got)
+		}
+		// reference-writer file, projected target: compare, per field the
+		// target has, the datum the field was written as with the datum the
+		// decoded field would be written as
+		full := bf.Values[i]
+		ft := full.Type()
+		for k := 0; k < got.NumField(); k++ {
+			name := got.Type().Field(k).Name
+			sf, ok := ft.FieldByName(name)
+			if !ok {
+				if !got.Field(k).IsZero() {
+					return false, "." + name + ": field absent from the file is not zero"
+				}
+				continue
+			}
+			jn, _ := jsonName(sf)
+			var fs *ref.Schema
+			for _, f := range bf.Schema.Fields {
+				if f.Name == jn {
+					fs = f.Type
+				}
+			}
+			if fs == nil {
+				continue
+			}
+			want := ToDatum(fs, full.FieldByName(name), hasOmitEmpty(sf), nil)
+			have := ToDatum(fs, got.Field(k), hasOmitEmpty(sf), nil)
+			if !ref.Equal(want, have) {
+				return false, "." + name + ": datum trees differ"
+			}
+		}
+		return true, ""
+	}
 	if bf.Spec.Writer == "ref" {
 		want := ToDatum(bf.Schema, bf.Values[i], false, nil)
 		have := ToDatum(bf.Schema, got, false, nil)
@@ -165,7 +201,7 @@ func (c07Prop) Execute(p *Plan, run *Run) any {
 		return map[string]any{"skipped": err.Error()}
 	}
 	data := bf.Bytes
-	target := bf.Desc.Type
+	target := targetFor(bf.Desc.Type, pl.Chunks.Project)
 	run.Probes.Inc("type:" + pl.File.Type + "/" + pl.File.Writer)
 	codec := c.Codec()
 
